@@ -175,6 +175,13 @@ if 'imp' not in sys.modules:
             raise ImportError(name)
 
         def _load_module(name, file, pathname, description):
+            # what yapsy needs to load wpull's bundled plugins (*.plugin.py): a module from a source file
+            if description and description[-1] == _imp.PY_SOURCE and pathname:
+                spec = importlib.util.spec_from_file_location(name, pathname)
+                module = importlib.util.module_from_spec(spec)
+                sys.modules[name] = module
+                spec.loader.exec_module(module)
+                return module
             raise ImportError(name)
         _imp.find_module = _find_module
         _imp.load_module = _load_module
